@@ -23,7 +23,7 @@ EXTENDS Naturals, Integers, Sequences, FiniteSets, TLC, Json
 CONSTANTS
   Api,        \* "kzg10" | "stream" | "mlpst"
   Tree,       \* "pinned" | "fixed"  (code facts)
-  Mode,       \* "honest" | "adv" | "adm"
+  Mode,       \* "honest" | "adv" | "adm" | "ser"
   MaxClaims,  \* kzg10: positions of a batch; stream: number of polynomials
   Emit
 
@@ -243,9 +243,22 @@ MlPlans(s) ==
   \cup {P("point_short", "any", [s EXCEPT !.point.dlen = -1])}
   \cup {P("value_point_long", "not_accept", [s EXCEPT !.point.dlen = 1, !.val.d = 1])}
 
+\* C12: canonical-serialization round trips of the artefacts on the way (mode = 2 * compress + validate).
+\* On the abstract state they are stuttering steps: the decision must be the one without them.
+SerArtefacts == CASE Api = "kzg10" -> {"pp", "powers", "vk", "comm", "rand", "proof", "all"}
+                  [] Api = "mlpst" -> {"pp", "ck", "vk", "comm", "proof", "all"}
+                  [] OTHER -> {}
+SerPlans(s) ==
+  LET P(name, w, t) == [name |-> name, want |-> w, stmt |-> t]
+      false == CASE Api = "kzg10" -> [s EXCEPT !.vals[1].d = 1] [] Api = "mlpst" -> [s EXCEPT !.val.d = 1] [] OTHER -> s
+  IN {P("ser", "accept", s @@ [ser |-> <<a, m>>]) : a \in SerArtefacts, m \in 0..3}
+     \cup {P("ser_value", "not_accept", false @@ [ser |-> <<a, m>>]) : a \in SerArtefacts, m \in 0..3}
+
 Plans(s) ==
   LET all == CASE Api = "kzg10" -> KzgPlans(s) [] Api = "stream" -> StreamPlans(s) [] Api = "mlpst" -> MlPlans(s)
-  IN IF Mode = "honest" THEN {p \in all : p.name = "honest"} ELSE {p \in all : p.name # "honest"}
+  IN IF Mode = "honest" THEN {p \in all : p.name = "honest"}
+     ELSE IF Mode = "ser" THEN SerPlans(s)
+     ELSE {p \in all : p.name # "honest"}
 
 \* --------------------------------------------------------------------------
 \* admission (C17): one request at a boundary magnitude instead of the commit; `cls` is what the
